@@ -6,6 +6,10 @@
    events
      Load     id, file                       the input file as written by the materialiser
      Unphase  src, dst, exc, out             run_unphase on file src; out = projected stdout VCF
+              srcmeta, meta, srccols, cols   raw '##' lines (without the FORMAT definitions of HP/PS/PQ and
+                                             '##phasing') and raw '#CHROM' line of source and output
+   All strings are byte-transparent: the driver escapes every byte >= 0x80 as \xNN, so string equality
+   is equality of the bytes of the files, whatever their character encoding.
      Phase    src, dst, tag, exc, out        a real `whatshap phase` run on file src (not judged here
                                              beyond being recorded; C04/C09 judge phase)
 
@@ -18,6 +22,8 @@
      NothingElse        same number and order of records, fixed columns verbatim, per call the same
                         other FORMAT fields in the same order and the same multiset of alleles;
                         no header definition lost except those of HP / PS / PQ
+     HeaderVerbatim     every other header line of the source is in the output byte for byte, and the
+                        '#CHROM' line (sample names) is byte-identical
      Idempotent         the source is itself an unphase output  =>  output records = source records
      CommutesWithPhase  the source was written by `whatshap phase` from file g and U(g) is on
                         record  =>  output records = records of U(g) *)
@@ -37,6 +43,7 @@ JudgeUnphase(e) ==
     ELSE LET in == files[e.src] IN
          /\ Check(e, "NoPhaseLeft", NoPhaseLeft(e.out))
          /\ Check(e, "NothingElse", NothingElse(in, e.out))
+         /\ Check(e, "HeaderVerbatim", Rng(e.srcmeta) \subseteq Rng(e.meta) /\ e.cols = e.srccols)
          /\ Check(e, "Idempotent", der[e.src].op = "U" => e.out.recs = in.recs)
          /\ Check(e, "CommutesWithPhase",
                   (der[e.src].op = "P" /\ der[e.src].src \in DOMAIN uof)
